@@ -2,6 +2,7 @@ package types
 
 import (
 	"encoding/json"
+	"math/big"
 	"strconv"
 
 	sdkmath "cosmossdk.io/math"
@@ -75,28 +76,24 @@ func ParseBool(v string) (Bool, error) {
 // inputScale: the decimal scale of input amount
 // outputScale: the decimal scale of output amount
 func LossLessSwap(input sdkmath.Int, ratio sdkmath.LegacyDec, inputScale, outputScale uint32) (sdkmath.Int, sdkmath.Int) {
-	inputDec := sdkmath.LegacyNewDecFromInt(input)
-	scaleFactor := int64(inputScale) - int64(outputScale)
-	var scaleMultipler, scaleReverseMultipler sdkmath.LegacyDec
-
-	if scaleFactor >= 0 {
-		scaleMultipler = sdkmath.LegacyNewDecWithPrec(1, scaleFactor)
-		scaleReverseMultipler = sdkmath.LegacyNewDecFromInt(sdkmath.NewIntWithDecimal(1, int(scaleFactor)))
-	} else {
-		scaleMultipler = sdkmath.LegacyNewDecFromInt(sdkmath.NewIntWithDecimal(1, int(-scaleFactor)))
-		scaleReverseMultipler = sdkmath.LegacyNewDecWithPrec(1, -scaleFactor)
+	if !ratio.IsPositive() {
+		return input, sdkmath.ZeroInt()
 	}
 
-	// Calculate output
-	outputDec := inputDec.Clone().Mul(scaleMultipler).Mul(ratio)
-	outputInt := outputDec.Clone().TruncateDec()
+	// exact integer arithmetic: one input min unit is worth ratio * 10^outputScale / 10^inputScale output min units
+	pow10 := func(n uint32) *big.Int { return new(big.Int).Exp(big.NewInt(10), big.NewInt(int64(n)), nil) }
+	worthNum := new(big.Int).Mul(ratio.BigInt(), pow10(outputScale)) // ratio carries 18 decimals
+	worthDen := new(big.Int).Mul(pow10(sdkmath.LegacyPrecision), pow10(inputScale))
 
-	// Adjust input if there are decimal places in the output
-	if !outputDec.Equal(outputInt) {
-		outputFrac := outputDec.Clone().Sub(outputInt)
-		inputFrac := outputFrac.Mul(scaleReverseMultipler)
-		input = inputDec.Sub(inputFrac).TruncateInt()
-	}
+	// Calculate output: the whole output units the input is worth
+	output := new(big.Int).Mul(input.BigInt(), worthNum)
+	output.Quo(output, worthDen)
 
-	return input, outputInt.TruncateInt()
+	// Adjust input: burn only what that output is worth (rounded up to a whole input unit),
+	// the part of the input that cannot be converted stays with the sender
+	burnt := new(big.Int).Mul(output, worthDen)
+	burnt.Add(burnt, new(big.Int).Sub(worthNum, big.NewInt(1)))
+	burnt.Quo(burnt, worthNum)
+
+	return sdkmath.NewIntFromBigInt(burnt), sdkmath.NewIntFromBigInt(output)
 }
